@@ -872,7 +872,7 @@ def rule_H(ck, units, floor=12):
 
 def rule_I(ck, units, floor=1, only=None):
     """I.sentinel-strict: a signed integer parameter that is replaced by a default when it is "not given" (`p < 0 ? dflt : p`,
-    `if (p < 0) p = dflt;`) uses a NEGATIVE sentinel: zero is a legitimate value (a rank that owns no columns, an empty row range).
+    `p >= 0 ? p : dflt`, `if (p < 0) p = dflt;`) uses a NEGATIVE sentinel: zero is a legitimate value (a rank that owns no columns, an empty row range).
     The replacing test must therefore be the strict `p < 0`; `p <= 0` (or `p == 0`, `!p`) also swallows the legitimate zero."""
     ck.rule('I.sentinel-strict', 'a signed parameter replaced by a default when negative ("not given") is tested with the strict `< 0`: the legitimate value 0 (no columns owned, empty '
                                  'row range) is never replaced', floor)
@@ -915,6 +915,10 @@ def rule_I(ck, units, floor=1, only=None):
                     x = unwrap(n.get('x'))
                     if y is not None and y['k'] == 'ref' and y['d'] == d and not (x is not None and x['k'] == 'ref' and x['d'] == d):
                         hits.append((n, d, op, x))
+                    elif x is not None and x['k'] == 'ref' and x['d'] == d and not (y is not None and y['k'] == 'ref' and y['d'] == d):
+                        # p OP 0 ? p : dflt   - the default replaces p exactly when the test fails
+                        neg = {'< 0': '>= 0', '<= 0': '> 0', '> 0': '<= 0', '>= 0': '< 0', '== 0': '!= 0', '!= 0': '== 0'}
+                        hits.append((n, d, neg[op], y))
                 elif n['k'] == 'if' and n.get('e') is None and n.get('t') is not None:
                     t = param_test(n['c'])
                     if t is None:
